@@ -356,7 +356,7 @@ theorem connect_eq (w : World) (pre : Str) (aenter : Outcome) (subs : List Outco
         | .error e => .error (.exn e)),
        { o := (oConnect w.o aenter (pad GenMqttObj.connectTopics.length subs) aexit).1,
          calls := w.calls ++ if connected w.o aenter then (subArgs pre).flatMap fun a => subCalls a.1 a.2 else [] }) := by
-  simp only [GenMqttObj.connect, OM.seq, OM.bind, client_connect_eq, oConnect, connected]
+  simp only [GenMqttObj.connect, connectArgs_eq, OM.liftPM, OM.seq, OM.bind, client_connect_eq, oConnect, connected]
   rcases Bool.eq_false_or_eq_true (w.o.client || w.o.task.isSome) with hg | hg
   rotate_left
   · simp only [hg, Bool.false_eq_true, if_false, Mqtt.connect, Bool.not_false, Bool.true_and]
